@@ -285,10 +285,11 @@ def bindArgs (ps : List Param) (pos : List Ref) (named : List (String × Ref)) :
   | .ok acc => fillDefaults acc ps
 
 def builtinArity : String → Option Nat
-  | "length" | "type" | "objectFields" | "objectFieldsAll" | "toString" => some 1
+  | "length" | "type" | "objectFields" | "objectFieldsAll" | "toString"
+  | "reverse" | "objectValues" | "objectValuesAll" | "flattenArrays" => some 1
   | "trace" | "objectHas" | "objectHasAll" | "makeArray" | "range" | "map" | "filter" | "mod"
-  | "objectRemoveKey" => some 2
-  | "foldl" => some 3
+  | "objectRemoveKey" | "join" => some 2
+  | "foldl" | "foldr" => some 3
   | "slice" => some 4
   | _ => none
 
@@ -307,6 +308,22 @@ def sliceList {α} (xs : List α) (s e : Option Int) (st : Nat) : List α :=
   let f := normIdx s n 0
   let t := normIdx e n n
   everyNth st 0 ((xs.take t).drop f)
+
+/-- `&`, `|`, `^` on integers through their 64-bit two's complement (operands are safe integers) -/
+def bitOp (op : BOp) (x y : Int) : Int :=
+  let a := BitVec.ofInt 64 x
+  let b := BitVec.ofInt 64 y
+  match op with
+  | .band => (a &&& b).toInt
+  | .bor => (a ||| b).toInt
+  | _ => (a ^^^ b).toInt
+
+/-- a safe integer: what `truncate_for_bitwise` accepts without truncating -/
+def isSafeInt (f : Float) : Bool := isInt f && f.abs ≤ 9007199254740991.0
+
+def repeatStr (s : String) : Nat → String
+  | 0 => ""
+  | k + 1 => s ++ repeatStr s k
 
 /-! ### the interpreter -/
 
@@ -341,7 +358,12 @@ def run : Nat → Task → M Out
     let forcePair (x y : Ref) : M (Val × Val) := do
       let xr : Except Stop Val ← tryCatch (do pure (.ok (← forceV x))) (fun st => pure (.error st))
       let yr : Except Stop Val ← tryCatch (do pure (.ok (← forceV y))) (fun st => pure (.error st))
+      -- "undecided" (out of fuel / outside the fragment) on either side wins over an error of the
+      -- other side: the real evaluator runs BOTH to completion, so nothing is known about the store
+      -- (trace) until both are decided (needed for `run_fuel_mono`, Proofs/EvalMono.lean)
       match xr, yr with
+      | .error (.undecided w), _ => throw (.undecided w)
+      | _, .error (.undecided w) => throw (.undecided w)
       | .error st, _ => throw st
       | _, .error st => throw st
       | .ok xv, .ok yv => pure (xv, yv)
@@ -737,6 +759,66 @@ def run : Nat → Task → M Out
               else undecided "non-integer modulo"
             | .str _, _ => undecided "string formatting"
             | _, _ => fail "type" "mod"
+          | "reverse" => do
+            match ← arg 0 with
+            | .arr xs => pure (.val (.arr xs.reverse))
+            | _ => fail "type" "reverse(array)"
+          | "objectValues" | "objectValuesAll" => do
+            match ← arg 0 with
+            | .obj o =>
+              let ls ← layersOf o
+              let ro ← alloc (.done (.obj o))
+              let mut refs : List Ref := []
+              for nm in fieldNames ls (name == "objectValuesAll") do
+                refs := refs ++ [← alloc (.waiting { env := [("o", ro)], this := none, dollar := none }
+                  (.index (.var "o") [.str nm]))]
+              pure (.val (.arr refs))
+            | _ => fail "type" "expected object"
+          | "flattenArrays" => do
+            match ← arg 0 with
+            | .arr xs =>
+              let mut refs : List Ref := []
+              for x in xs do
+                match ← forceV x with
+                | .arr ys => refs := refs ++ ys
+                | _ => fail "type" "flattenArrays(array of arrays)"
+              pure (.val (.arr refs))
+            | _ => fail "type" "flattenArrays(array)"
+          | "join" => do
+            match ← arg 0 with
+            | .str sep =>
+              match ← arg 1 with
+              | .arr xs =>
+                let mut out := ""
+                let mut first := true
+                for x in xs do
+                  match ← forceV x with
+                  | .str item =>
+                    out := if first then item else out ++ sep ++ item
+                    first := false
+                  | .null => pure ()
+                  | _ => fail "user" "in std.join all items should be strings"
+                pure (.val (.str out))
+              | _ => fail "type" "join(sep, array)"
+            | .arr _ => undecided "join with an array separator"
+            | _ => fail "type" "join(string or array, array)"
+          | "foldr" => do
+            match ← arg 0, ← arg 1 with
+            | fv@(.func ..), .arr xs =>
+              let mut acc := pos.getD 2 0
+              for x in xs.reverse do
+                let v ← expectVal (← run n (.call fv [x, acc] []))
+                acc ← alloc (.done v)
+              pure (.val (← forceV acc))
+            | fv@(.func ..), .str str =>
+              let mut acc := pos.getD 2 0
+              for ch in str.toList.reverse do
+                let rc ← alloc (.done (.str (String.singleton ch)))
+                let v ← expectVal (← run n (.call fv [rc, acc] []))
+                acc ← alloc (.done v)
+              pure (.val (← forceV acc))
+            | .builtin _, _ => undecided "foldr with builtin"
+            | _, _ => fail "type" "foldr(function, array, init)"
           | "slice" => do
             let optInt (v : Val) : M (Option Int) := match v with
               | .null => pure none
@@ -879,7 +961,11 @@ def run : Nat → Task → M Out
           | _, _ => fail "type" "- operands"
         | .mul => match av, bv with
           | .num x, .num y => pure (.val (← tryNum (x * y)))
-          | .str _, .num _ | .num _, .str _ => undecided "string repetition"
+          | .str x, .num k | .num k, .str x =>
+            -- jrsonnet extension: repetition, the count truncated to an unsigned integer
+            if !isInt k then undecided "string repetition by a non-integer" else
+            if k > 1000 then undecided "long string repetition" else
+            pure (.val (.str (repeatStr x (toInt k).toNat)))
           | _, _ => fail "type" "* operands"
         | .div => match av, bv with
           | .str _, _ => fail "type" "/ operands"
@@ -901,7 +987,25 @@ def run : Nat → Task → M Out
           | _, _ => fail "type" "% operands"
         | .band | .bor | .bxor | .shl | .shr =>
           match av, bv with
-          | .num _, .num _ => undecided "bitwise operators (C09)"
+          | .num x, .num y =>
+            -- guards as in `NumValue::truncate_for_bitwise` / the shift arms of operator.rs (C09)
+            if !finite x || !finite y then undecided "bitwise on non-finite" else
+            let shift := op == .shl || op == .shr
+            if shift && y < 0 then fail "user" "shift by negative exponent" else
+            if x.abs > 9007199254740991.0 || y.abs > 9007199254740991.0 then
+              fail "user" "numberic value outside of safe integer range for bitwise operation" else
+            if !isSafeInt x || !isSafeInt y then undecided "bitwise on non-integers (C09)" else
+            let a := toInt x
+            let e := (toInt y).toNat % 64
+            match op with
+            | .shl =>
+              if e ≥ 1 && (a ≥ 2 ^ (63 - e) || a < -(2 ^ (63 - e) : Int)) then
+                fail "user" "left shift would overflow"
+              else
+                -- a safe integer times a power of two below 2^63 is exactly representable
+                pure (.val (.num (ofInt (a * 2 ^ e))))
+            | .shr => pure (.val (.num (ofInt (a / 2 ^ e))))
+            | _ => pure (.val (.num (ofInt (bitOp op a (toInt y)))))
           | _, _ => fail "type" "bitwise operands"
         | .and | .or => undecided "internal: and/or"
       | .apply f pos named ts => do
@@ -1023,6 +1127,11 @@ def run : Nat → Task → M Out
         let isEmpty := layer.fields.isEmpty && layer.asserts.isEmpty
         let ls := if isEmpty then baseLayers else baseLayers ++ [layer]
         pure (.val (.obj (← allocObj ls)))
+
+/-- out of fuel.  (Also makes Lean generate the equation lemmas `run.eq_*` / `run.render.eq_*` HERE:
+    generated lazily in two downstream proof modules they clash as soon as both are imported.) -/
+theorem run_zero (t : Task) : run 0 t = undecided "fuel" := by simp only [run]
+theorem run_render_zero (j : JV) : run.render 0 j = undecided "fuel" := by simp only [run.render]
 
 /-- outcome of a whole program -/
 inductive Outcome where
